@@ -23,7 +23,7 @@ INFO = {
                    "under the same name; key2idx is the canonical position; the Cayley rows/columns are left/right "
                    "factors; the draggable-point predicate and its index twin agree on every (r, d) cell; drag write-back "
                    "is in place, key-addressed and followed by re-evaluation. NOT decided: ganja.js itself.",
-    "decided": ["C20.keys-or-canonical", "C20.byte-payload", "C20.recursion", "C20.fields", "C20.key2idx", "C20.cayley",
+    "decided": ["C20.keys-or-canonical", "C20.byte-payload", "C20.signature", "C20.recursion", "C20.fields", "C20.key2idx", "C20.cayley",
                 "C20.draggable-agree", "C20.writeback"],
     "not_decided": ["what ganja.js renders from a decoded element"],
     "assumptions": ["graph.js decodes a payload by key through key2idx when 'keys' is present and positionally otherwise "
@@ -389,6 +389,38 @@ def widget(alg, **attrs):
     a = {"algebra": alg}
     a.update(attrs)
     return Obj("GraphWidget", a)
+
+
+@rule("C20.signature", props=["C20"], min_instances=3, mutants=[
+    ("signature rebuilt from the counts as [0]*r + [1]*p + [-1]*q", ("graph", "        return [int(s) for s in self.algebra.signature]", "        alg = self.algebra\n        return [0] * alg.r + [1] * alg.p + [-1] * alg.q")),
+    ("signature sent sorted", ("graph", "        return [int(s) for s in self.algebra.signature]", "        return sorted(int(s) for s in self.algebra.signature)")),
+])
+def signature_rule(ctx):
+    """The metric sent to the front end is the algebra's signature entry by entry, in the algebra's own generator order
+    (ganja squares generator i to entry i; the Cayley table and the coefficients sent next to it are in that order)."""
+    q = "graph.GraphWidget.get_signature"
+    fn = ctx.func(q)
+    for sig in ([1, 0, 1], [1, -1, 0, 0], [0, 1, 1, 1], [-1, 1]):
+        c = f"{q}#{sig}"
+        alg = rep_algebra(len(sig), extra_attrs={"signature": list(sig), "p": sig.count(1), "q": sig.count(-1), "r": sig.count(0)})
+        it = make_interp(ctx.repo)
+        try:
+            out = it.run(q, [widget(alg)])
+        except NoValue as exc:
+            raise Unknown(c, str(exc), fn)
+        if out[0] == "return" and isinstance(out[1], (list, tuple)) and list(out[1]) == sig and all(type(v) is int for v in out[1]):
+            ctx.ok(c, fn)
+        elif out[0] == "return" and isinstance(out[1], (list, tuple)) and _concrete_list(out[1]):
+            ctx.violation(c, f"an algebra with signature {sig} sends the metric {list(out[1])} to the front end: generator i of the algebra "
+                             f"does not square to entry i there, so the Cayley table and the coefficients describe another algebra", fn)
+        elif out[0] == "raise":
+            ctx.violation(c, f"raises {out[1]}", fn)
+        else:
+            raise Unknown(c, f"returns {out[1]!r}", fn)
+
+
+def _concrete_list(v):
+    return all(isinstance(x, (int, float)) and not isinstance(x, bool) for x in v)
 
 
 @rule("C20.key2idx", props=["C20"], min_instances=3, mutants=[
